@@ -19,6 +19,7 @@ sweep), confirmed in a fresh process that makes only that call, and keyed <how>:
 """
 import os
 import random
+import re
 
 from vf import core, idb
 from vf.gen import idbgen, ifacegen
@@ -47,11 +48,24 @@ def _drive(d, script, name="script", trace=False, nocatch=False, timeout=120, sy
     return core.run(cmd, timeout=timeout, env=env)
 
 
+def _ubsan_exit(r):
+    """non-recoverable UBSan reports end the process with exit status 1 (no signal)."""
+    return r.rc == 1 and "runtime error:" in r.err
+
+
+def _dead(r):
+    return r.died() or r.timed_out or r.asan_report() or _ubsan_exit(r)
+
+
 def _how(r):
     if r.timed_out:
         return "hang"
     if r.uncaught():
         return "uncaught:" + r.uncaught()
+    if _ubsan_exit(r) and not r.asan_report():
+        m = re.search(r"runtime error: ([A-Za-z -]+)", r.err)
+        words = (m.group(1).split() if m else ["?"])[:4]
+        return "ubsan:" + "-".join(words)
     return r.how()
 
 
@@ -226,7 +240,7 @@ def _bisect_crash(ctx, res, d, base, sweepcmd, q, label, fnfilter=None):
     r2 = _drive(d, base + only + "\n", name="only", timeout=30)
     if r2.timed_out:
         r2 = _drive(d, base + only + "\n", name="only", timeout=60)
-    if r2.died() or r2.asan_report() or r2.timed_out:
+    if _dead(r2):
         res.violation("%s:fn=%s,arg=%s" % (_how(r2), fn, _argclass(q, fn, a, b)), index=a, position=b,
                       frames=r2.frames(3), got=r2.err[-1200:], witness=label)
     else:
@@ -266,7 +280,7 @@ def case_sweep(ctx, case, res):
     label = _c12._src_label(case["src"])
     if r.ubsan_arith():
         res.count("ubsan_arith_reports", r.ubsan_arith())
-    if r.timed_out or r.died() or r.asan_report() or r.rc != 0:
+    if _dead(r) or r.rc != 0:
         if r.rc == 3:
             raise core.HarnessError("idbdrive: " + r.err[-500:])
         # attribute, then sweep the functions one by one so the rest is still judged
@@ -276,7 +290,7 @@ def case_sweep(ctx, case, res):
             if args == "s" or ret == "v" or fn == crashed:
                 continue
             r1 = _drive(d, base + sweepcmd + " " + fn + "\n", name="one", timeout=120, symbolize=False)
-            if r1.died() or r1.timed_out or r1.rc != 0:
+            if _dead(r1) or r1.rc != 0:
                 _bisect_crash(ctx, res, d, base, sweepcmd, q, label, fnfilter=fn)
                 continue
             g1, t1 = _parse_sweep(r1.out)
@@ -350,7 +364,7 @@ def _run_script_resilient(d, setup_for, cmds, small_stack=False, max_restarts=40
                 begun = None
             elif t[0] in ("M", "E", "L"):
                 meta.append(t)
-        if r.died() or r.timed_out or r.asan_report():
+        if _dead(r):
             if begun is None:
                 raise core.HarnessError("idbdrive died outside a call: " + r.err[-600:])
             deaths[begun] = r
@@ -464,7 +478,7 @@ def case_lookup(ctx, case, res):
         script.append("call %s %d" % (NAME_OF[fn], got))
         asked.append((fn, n, got))
     r = _drive(d, "\n".join(script) + "\n", name="nameof", symbolize=False)
-    if r.rc != 0 or r.died():
+    if r.rc != 0 or _dead(r):
         raise core.HarnessError("name_of pass failed: " + r.err[-400:])
     vals = [l.split(" ")[-1] for l in r.out.splitlines() if l.startswith("R ")]
     if len(vals) != len(asked):
@@ -572,7 +586,7 @@ def case_unique(ctx, case, res):
         r2 = _drive(d, "\n".join(setup + [cmds[i][1]]) + "\n", name="confirm", timeout=60)
         if r2.timed_out:
             r2 = _drive(d, "\n".join(setup + [cmds[i][1]]) + "\n", name="confirm", timeout=120)
-        if r2.died() or r2.asan_report() or r2.timed_out:
+        if _dead(r2):
             key = "%s:fn=%s,arg=%s" % (_how(r2), fn, cls)
             confirmed.add(key)
             res.violation(key, table_size=k, lookup_key=n.decode("latin-1"), table=[x.decode("latin-1") for x in names],
@@ -742,6 +756,10 @@ def main(chk):
         if p.get("size") == "medium" and chk.quick():
             p["size"] = "small"
         add({"kind": "sweep", "src": syn(p)})
+    if not chk.quick():
+        for i in range(12):
+            add({"kind": "sweep", "src": syn(dict(size="large", strings=("mixed", "hostile", "plain")[i % 3],
+                                                  flags="random", dangling=0.1 if i % 2 else 0.0))})
     reals = [("item_assignment", 1), ("rich1", 0)] if chk.quick() else \
         [(h, o) for h in _c12.HEADERS for o in range(4)]
     for h, o in reals:
